@@ -116,7 +116,15 @@ type CallRec struct {
 	ret  Value
 }
 
+type recApp struct {
+	fn    string
+	other string // the non-bound arguments (as a key)
+	bound *Term
+	app   *Term
+}
+
 type State struct {
+	recApps        []recApp
 	caseTerm       *Term // proof-by-cases hint (see markCases)
 	caseLo, caseHi int
 	unfolded map[int]bool // applications of recursive ghost functions already unfolded on this path
@@ -137,7 +145,7 @@ func newState() *State {
 func (s *State) clone() *State {
 	n := &State{pc: append([]*Term(nil), s.pc...), objs: make(map[*Object]Value, len(s.objs)), rgn: make(map[*Region]*RegionState, len(s.rgn)),
 		inst: append([]*Term(nil), s.inst...), qh: append([]*QHyp(nil), s.qh...), alloc: s.alloc, trace: append([]CallRec(nil), s.trace...),
-		caseTerm: s.caseTerm, caseLo: s.caseLo, caseHi: s.caseHi}
+		caseTerm: s.caseTerm, caseLo: s.caseLo, caseHi: s.caseHi, recApps: append([]recApp(nil), s.recApps...)}
 	for k, v := range s.objs {
 		n.objs[k] = v
 	}
